@@ -86,9 +86,17 @@ def execute(ctx, case):
     ctx.sess.bci_log.clear()
     kw = dict(case["kw"])
     if case["func"] == "roc_with_ci":
-        score_analysis.roc_with_ci(s, alpha=case["alpha"], config=cfg, x_axis=case["x_axis"], **kw)  # judged by M-band
+        A = score_analysis.roc_with_ci(s, alpha=case["alpha"], config=cfg, x_axis=case["x_axis"], **kw)  # judged by M-band
     else:
-        getattr(EXP, case["func"])(s, alpha=case["alpha"], config=cfg, **kw)
+        A = getattr(EXP, case["func"])(s, alpha=case["alpha"], config=cfg, **kw)
+    if case["_seed"] % 4 == 0 and case["func"] != "fixed_width_band_ci":
+        # a history across curves: the operating thresholds of the curve just returned are handed (as they are) to later calls as
+        # the only support; M-band re-inspects the kept curve and the caller's array on every later call
+        np.random.seed(case["_seed"] + 1)
+        score_analysis.roc_with_ci(s, alpha=case["alpha"], config=cfg, thresholds=A.thresholds, nb_points=None)
+        EXP.pointwise_band_ci(s, alpha=case["alpha"], config=cfg, thresholds=A.thresholds, nb_points=None)
+        score_analysis.roc(s, thresholds=A.thresholds, nb_points=None, x_axis=case["x_axis"] if case["func"] == "roc_with_ci" else "fpr")
+        score_analysis.roc_with_ci(s, alpha=case["alpha"], config=cfg, nb_points=3)  # one more call: re-inspects all kept curves
     ctx.sess.bs_log.clear()
     ctx.sess.sig_counts[("case", case["func"], case["sc"], case["ec"], case["kind"], sm, case["bm"], tuple(sorted(kw)))] += 1
     return True
